@@ -10,6 +10,6 @@ CONTRACTS = list(_H) + list(_T) + list(_R) + list(_A) + [RemoveRecursively, Remo
 
 MANIFEST = {
     "category": "other",
-    "text": "Partial deductive coverage of the round trip, by operation: every mutating step has a contract elsewhere that pins what reaches the file (C03 setters and writer dispatch, C09/C02 writer functions over the link graph, C05 removals, C04 concatenated tables), and this module adds the tree-level ones: Entity.parent.fset (joins new parent, leaves the old one only when it differs, re-saved), PropertyGroup.remove_properties/add_properties, Workspace.remove_recursively, remove_none_referents (exactly the dead keys leave, for every liveness pattern), Workspace.open (empty registries before the tree is loaded), Workspace.close (whole tree saved before the handle is released), Concatenator.add_save_concatenated. The read-back half (H5Reader.fetch_children / fetch_attributes) is verified in C19's module. The end-to-end statement 'the re-opened tree equals the live tree' over whole histories, class dispatch on load and garbage-collection placement is a seeded bounded stand-in (live snapshot vs re-opened snapshot).",
+    "text": "Partial deductive coverage of the round trip, by operation: every mutating step has a contract elsewhere that pins what reaches the file (C03 setters and writer dispatch, C09/C02 writer functions over the link graph, C05 removals, C04 concatenated tables), and this module adds the tree-level ones: Entity.parent.fset (joins new parent, leaves the old one only when it differs, re-saved), PropertyGroup.remove_properties/add_properties, Workspace.remove_recursively, remove_none_referents (exactly the dead keys leave, for every liveness pattern), Workspace.open (empty registries before the tree is loaded), Workspace.close (whole tree saved before the handle is released), Concatenator.add_save_concatenated. The read-back half (H5Reader.fetch_children / fetch_attributes) is verified in C19's module. The end-to-end statement 'the re-opened tree equals the live tree' over whole histories, class dispatch on load and garbage-collection placement is a seeded bounded stand-in (live snapshot vs re-opened snapshot). Since then the check also carries the reader contracts (fetch_children / fetch_attributes incl. value identity / fetch_array_attribute), the geometry-removal contracts of C07 (the reduced arrays go through the persisting setters), H5Writer.write_array_attribute, the _all_<kind> registry sweeps, and API histories with names containing blanks or equal to the project group's name, vertex removal, copy-then-edit and data moves.",
     "note": "No single inductive invariant Sync(M,F) is discharged: the composition of the per-operation contracts into the history quantifier is an informal argument in DESIGN.md, hence level 'other'; constructors (map_attributes/setattr), create_entity dispatch and load_entity are outside the model.",
 }
